@@ -43,9 +43,9 @@ func shortName(fn *types.Func) string {
 		if nt, ok := t.(*types.Named); ok {
 			name = nt.Obj().Name()
 		}
-		return fmt.Sprintf("%s.(%s%s).%s", pkg, ptr, name, fn.Name())
+		return fmt.Sprintf("%s.(%s%s).%s", pkg, ptr, name, refName(fn))
 	}
-	return pkg + "." + fn.Name()
+	return pkg + "." + refName(fn)
 }
 
 // Func resolves a function or method by package (relative path), receiver type name ("" for plain functions) and name.
@@ -73,7 +73,8 @@ func (p *Prog) Func(rel, recv, name string) *FuncInfo {
 			return fi
 		}
 	}
-	return nil
+	// not under that name: a renamed anchor? (rename.go)
+	return p.resolveRenamed(rel, recv, name)
 }
 
 func recvTypeName(fd *ast.FuncDecl) string {
@@ -207,6 +208,9 @@ func isCall(info *types.Info, call *ast.CallExpr, names ...string) bool {
 		}
 		if q == n {
 			return true
+		}
+		if cur := theProg.currentQName(n); cur != "" && cur == q {
+			return true // the named function was renamed (rename.go)
 		}
 	}
 	return false
